@@ -325,6 +325,69 @@ func isGpos(c *shapex.Case) bool {
 	return false
 }
 
+// structuralWords returns the word indices of the lookup list of an encoded GSUB/GPOS table: the list
+// header, every lookup header with its subtable offsets and the first 8 words of every subtable
+// (format, coverage offsets, counts).  It only walks what is inside the data.
+func structuralWords(data []byte) []int {
+	var res []int
+	u16 := func(off int) (int, bool) {
+		if off < 0 || off+2 > len(data) {
+			return 0, false
+		}
+		return int(data[off])<<8 | int(data[off+1]), true
+	}
+	add := func(off int) {
+		if off >= 0 && off+2 <= len(data) && off%2 == 0 {
+			res = append(res, off/2)
+		}
+	}
+	ll, ok := u16(8)
+	if !ok {
+		return nil
+	}
+	add(8)
+	n, ok := u16(ll)
+	if !ok {
+		return res
+	}
+	add(ll)
+	for i := 0; i < n && i < 64; i++ {
+		add(ll + 2 + 2*i)
+		lo, ok := u16(ll + 2 + 2*i)
+		if !ok {
+			break
+		}
+		lt := ll + lo
+		for k := 0; k < 3; k++ {
+			add(lt + 2*k)
+		}
+		ns, ok := u16(lt + 4)
+		if !ok {
+			continue
+		}
+		for j := 0; j < ns && j < 16; j++ {
+			add(lt + 6 + 2*j)
+			so, ok := u16(lt + 6 + 2*j)
+			if !ok {
+				break
+			}
+			for k := 0; k < 8; k++ {
+				add(lt + so + 2*k)
+			}
+		}
+		add(lt + 6 + 2*ns) // mark filtering set, if present
+	}
+	seen := map[int]bool{}
+	out := res[:0]
+	for _, w := range res {
+		if !seen[w] {
+			seen[w] = true
+			out = append(out, w)
+		}
+	}
+	return out
+}
+
 func main() {
 	if len(os.Args) < 4 {
 		vio.Fatal("usage: c07 history|mutants ...")
@@ -357,7 +420,7 @@ func main() {
 			break
 		}
 		vals := []int{0, 1, 2, 3, 0x7FFF, 0x8000, 0xFFFE, 0xFFFF}
-		nmut, nacc := 0, 0
+		nmut, nacc, nlive := 0, 0, 0
 		for _, c := range cases {
 			b, err := shapex.Build(c)
 			if err != nil {
@@ -367,7 +430,12 @@ func main() {
 			if isGpos(c) {
 				tp = gtab.TypeGpos
 			}
-			info := &gtab.Info{LookupList: b.LL}
+			// a script and a feature list are needed: the reader returns an empty table without them
+			info := &gtab.Info{
+				ScriptList:  gtab.ScriptListInfo{language.MustParse("und-Zyyy"): {Required: 0xFFFF, Optional: []gtab.FeatureIndex{0}}},
+				FeatureList: gtab.FeatureListInfo{{Tag: "test", Lookups: []gtab.LookupIndex{0}}},
+				LookupList:  b.LL,
+			}
 			var data []byte
 			func() {
 				defer func() {
@@ -379,6 +447,10 @@ func main() {
 			}()
 			if data == nil {
 				continue
+			}
+			// non-vacuity: the unmutated encoding must read back with all its lookups
+			if back, err := gtab.Read(bytes.NewReader(data), tp); err != nil || len(back.LookupList) != len(b.LL) {
+				vio.Fatal(fmt.Sprintf("case %d: the unmutated encoding does not read back (%v)", c.ID, err))
 			}
 			pool := c.Inputs
 			if len(pool) > 8 {
@@ -396,7 +468,21 @@ func main() {
 				step = (words + maxWords - 1) / maxWords
 			}
 			rng := vio.Rand(int64(c.ID))
+			// the structural words (lookup list, lookup headers, subtable offsets and the head of every
+			// subtable) are always mutated; the rest of the table is sampled with the given density
+			wl := structuralWords(data)
+			inList := map[int]bool{}
+			for _, w := range wl {
+				inList[w] = true
+			}
 			for w := rng.Intn(step); w < words; w += step {
+				if !inList[w] {
+					wl = append(wl, w)
+					inList[w] = true
+				}
+			}
+			cmut := 0 // per-case counter: the id of a mutant does not depend on the other cases of the run
+			for _, w := range wl {
 				orig := int(data[2*w])<<8 | int(data[2*w+1])
 				for _, v := range append(vals, orig+1, orig-1, len(data), len(data)-2*w) {
 					v &= 0xFFFF
@@ -406,13 +492,14 @@ func main() {
 					mut := append([]byte(nil), data...)
 					mut[2*w], mut[2*w+1] = byte(v>>8), byte(v)
 					nmut++
+					cmut++
 					var got *gtab.Info
 					var rerr error
 					ro := guarded(func() []glyph.Info {
 						got, rerr = gtab.Read(bytes.NewReader(mut), tp)
 						return nil
 					})
-					id := c.ID*100000 + nmut%100000
+					id := c.ID*100000 + cmut%100000
 					if !ro.ok || ro.hung {
 						// a panicking reader is C02's subject; recorded for completeness
 						out.Emit(ev{"ev": "readpanic", "case": id, "off": 2 * w, "val": v, "site": ro.site, "msg": ro.msg})
@@ -422,13 +509,30 @@ func main() {
 						continue
 					}
 					nacc++
+					if len(got.LookupList) > 0 {
+						nlive++
+					}
 					s := &subject{b: &shapex.Built{LL: got.LookupList, Gdef: b.Gdef, Order: b.Order}, maxR: maxRepl(got.LookupList)}
 					protocol(out, s, id, fmt.Sprintf("case %d word %d := %d", c.ID, w, v), pool, hists, false)
 				}
 			}
 		}
-		out.Emit(ev{"ev": "mutsummary", "mutants": nmut, "accepted": nacc})
+		out.Emit(ev{"ev": "mutsummary", "mutants": nmut, "accepted": nacc, "live": nlive})
 		out.Close()
+	case "words":
+		// development aid: the encoded table and its structural words
+		for _, c := range cases {
+			b, err := shapex.Build(c)
+			if err != nil {
+				vio.Fatal(err)
+			}
+			data := (&gtab.Info{
+				ScriptList:  gtab.ScriptListInfo{language.MustParse("und-Zyyy"): {Required: 0xFFFF, Optional: []gtab.FeatureIndex{0}}},
+				FeatureList: gtab.FeatureListInfo{{Tag: "test", Lookups: []gtab.LookupIndex{0}}},
+				LookupList:  b.LL,
+			}).Encode()
+			fmt.Printf("case %d: % x\n  structural words %v\n", c.ID, data, structuralWords(data))
+		}
 	default:
 		vio.Fatal("unknown mode")
 	}
